@@ -87,6 +87,60 @@ type armEval struct {
 	calls   []armCall
 	exited  bool
 	maxStep int
+	// helper, when set, resolves a function of the package to its declaration: a call that passes a dispatch variable on
+	// (c.lowerStore(op)) is interpreted in place, with the parameter bound to the same label
+	helper func(f *types.Func) *ast.FuncDecl
+	depth  int
+}
+
+// inlineHelper interprets the body of a helper that is handed a dispatch variable; reports whether it did.
+func (e *armEval) inlineHelper(call *ast.CallExpr, env map[types.Object]aval) bool {
+	if e.helper == nil || e.depth >= 2 {
+		return false
+	}
+	f := core.Callee(e.info, call)
+	if f == nil {
+		return false
+	}
+	var tagArgs []int
+	for i, a := range call.Args {
+		if id, ok := ast.Unparen(a).(*ast.Ident); ok && e.tags[e.info.Uses[id]] {
+			tagArgs = append(tagArgs, i)
+		}
+	}
+	if len(tagArgs) == 0 {
+		return false
+	}
+	hd := e.helper(f)
+	if hd == nil || hd.Body == nil {
+		return false
+	}
+	var params []types.Object
+	for _, fl := range hd.Type.Params.List {
+		for _, nm := range fl.Names {
+			params = append(params, e.info.Defs[nm])
+		}
+	}
+	henv := map[types.Object]aval{}
+	for i, a := range call.Args {
+		if i < len(params) && params[i] != nil {
+			henv[params[i]] = e.eval(a, env)
+		}
+	}
+	var added []types.Object
+	for _, i := range tagArgs {
+		if i < len(params) && params[i] != nil && !e.tags[params[i]] {
+			e.tags[params[i]] = true
+			added = append(added, params[i])
+		}
+	}
+	e.depth++
+	e.run(hd.Body.List, henv)
+	e.depth--
+	for _, o := range added {
+		delete(e.tags, o)
+	}
+	return true
 }
 
 func (e *armEval) eval(x ast.Expr, env map[types.Object]aval) aval {
@@ -338,6 +392,11 @@ func (e *armEval) run(stmts []ast.Stmt, env map[types.Object]aval) map[types.Obj
 		case *ast.BranchStmt, *ast.ReturnStmt:
 			return env
 		default:
+			if es, ok := s.(*ast.ExprStmt); ok {
+				if call, ok := es.X.(*ast.CallExpr); ok && e.inlineHelper(call, env) {
+					continue
+				}
+			}
 			e.scanCalls(s, env)
 		}
 	}
